@@ -34,7 +34,7 @@ BOUND = 25.0
 ACTS = ["idle", "blocked", "busy", "sleep", "swallow_kbi", "sigint_ignored", "daemon_threads", "flood", "big_transfer", "endmarker_raises",
         "callback_service", "inbound_flood", "thread_exhaustion", "unread_backlog"]
 GEVENT_ACTS = ["idle", "blocked", "gevent_sleep", "gevent_busy", "gevent_timesleep"]
-REMOVALS = ["sigkill", "sigterm", "os_exit", "normal_exit", "close_connection", "during_bootstrap"]
+REMOVALS = ["sigkill", "sigterm", "os_exit", "normal_exit", "close_connection", "during_bootstrap", "exit_after_fork"]
 TOPOS = ["popen", "python", "via", "socket"] + [t for t in ("py3.10", "py3.11", "py3.13") if __import__("glob").glob(f"/root/.pyenv/versions/{t[2:]}.*/bin/python")]
 
 
@@ -173,6 +173,7 @@ def run_case(case, out):
         result["workers_at_removal"] = [x for x in procs.tagged_pids(tag) if x != p.pid]
         # observe
         keep = {p.pid} if removal == "close_connection" else set()
+        keep |= {e["pid"] for e in events if e.get("event") == "helper_pid"}  # (the forked-off helper is no worker)
         left = []
         while True:
             pids = [x for x in procs.tagged_pids(tag) if x not in keep and procs.alive(x)]
@@ -300,6 +301,9 @@ def run_shard(spec):
         cases[1].update(gen_fixed("popen", "main_thread_only", "swallow_kbi", "os_exit"))
         cases[2].update(gen_fixed("popen", "thread", "swallow_kbi", "sigkill", stderr="pipe_reader_gone"))
         cases[4].update(gen_fixed("popen", "thread", "callback_service", "sigkill"))
+    if spec["shard"] == 2:
+        cases[0].update(gen_fixed("popen", "thread", "idle", "exit_after_fork"))
+        cases[1].update(gen_fixed("python", "main_thread_only", "sleep", "exit_after_fork"))
     if spec["shard"] == 1:
         cases[0].update(gen_fixed("popen", "thread", "unread_backlog", "sigkill"))
         cases[1].update(gen_fixed("popen", "main_thread_only", "unread_backlog", "normal_exit"))
